@@ -137,74 +137,9 @@ func checkC01(c *core.Ctx) {
 		}
 		c.MC("MC_Mailbox/"+cfg, r)
 	}
-	// 2. behaviours generated by TLC, replayed step by step on the real mailbox
-	var traces []*Trace
-	var mu sync.Mutex
 	gens := []string{"Gen_Q_" + v + ".cfg", "Gen_H_" + v + ".cfg", "Gen_P_" + v + ".cfg", "Gen_W_" + v + ".cfg", "Gen_S_" + v + ".cfg", "Gen_R_" + v + ".cfg"}
-	perCfg := core.Pick(c, 300, 4000)
-	type job struct {
-		sc    *mbScenario
-		sched []mbStep
-		seed  int64
-		class string
-		name  string
-	}
-	var jobs []job
-	for gi, g := range gens {
-		b, r, err := mbGenerate(c, dir, g, perCfg, c.Seed*131+int64(gi))
-		if err != nil || b.scen == nil || (r != nil && r.Violation != "") {
-			c.Broken("behaviour generation %s failed: %v %s\n%s", g, err, vio(r), tailOf(r))
-			return
-		}
-		c.Add("tlc_behaviours_generated", int64(len(b.behav)))
-		for bi, bh := range b.behav {
-			sc := *b.scen
-			sc.RingSize = []int64{1, 2, 256}[bi%3]
-			jobs = append(jobs, job{&sc, bh, c.Seed + int64(bi), "tlc-" + strings.TrimSuffix(g, ".cfg"), fmt.Sprintf("%s#%d", g, bi)})
-		}
-	}
-	// 3. larger scenarios than TLC enumerates, random fine-grained schedules
-	rng := rand.New(rand.NewSource(c.Seed))
-	for i := 0; i < core.Pick(c, 600, 8000); i++ {
-		jobs = append(jobs, job{mbRandomScenario(rng), nil, c.Seed*7919 + int64(i), "random", fmt.Sprintf("random#%d", i)})
-	}
-	sem := make(chan struct{}, 12)
-	var wg sync.WaitGroup
-	distinct := map[string]bool{}
-	for _, j := range jobs {
-		wg.Add(1)
-		sem <- struct{}{}
-		go func(j job) {
-			defer wg.Done()
-			defer func() { <-sem }()
-			run := runMailboxScenario(j.sc, j.sched, j.seed)
-			mu.Lock()
-			defer mu.Unlock()
-			if run.Stuck != "" {
-				c.Broken("scenario %s: controller stuck: %s", j.name, run.Stuck)
-				return
-			}
-			c.Add("evaluations", 1)
-			c.Add("replayed_steps", int64(run.Steps))
-			c.Add("conformance_steps", int64(run.Conform))
-			c.Add("conformance_mismatch_steps", int64(run.Mismatch))
-			c.Add("drift_behaviours", int64(run.Drift))
-			c.Add("messages_handled", int64(run.Handled))
-			if os.Getenv("VERIF_DEBUG") != "" && run.Drift > 0 && c.Get("debug_printed") < 2 {
-				c.Add("debug_printed", 1)
-				b, _ := json.Marshal(map[string]any{"name": j.name, "sc": j.sc, "events": run.Events})
-				fmt.Println("DEBUG", string(b))
-			}
-			sig := traceSignature(run.Events)
-			if !distinct[sig] && traceHasOverlap(run.Events) {
-				distinct[sig] = true
-			}
-			traces = append(traces, &Trace{Events: run.Events, Class: j.class, Name: j.name,
-				Scenario: map[string]any{"scenario": j.sc, "schedule": j.sched, "seed": j.seed}})
-		}(j)
-	}
-	wg.Wait()
-	if c.IsBroken() {
+	traces, distinct, ok := mbCollectTraces(c, dir, gens, core.Pick(c, 300, 4000), core.Pick(c, 600, 8000))
+	if !ok {
 		return
 	}
 	// 4. TLC judges every recorded trace with the monitor
@@ -264,4 +199,80 @@ func traceHasOverlap(ev []map[string]any) bool {
 		}
 	}
 	return false
+}
+
+// mbCollectTraces generates TLC behaviours of the Mailbox spec (simulation) for the given generator
+// configurations, replays them hook by hook on the real mailbox, adds random scenarios and returns the traces.
+func mbCollectTraces(c *core.Ctx, dir string, gens []string, perCfg, nRandom int) ([]*Trace, map[string]bool, bool) {
+	v := mbModelVariant
+	_ = v
+	// 2. behaviours generated by TLC, replayed step by step on the real mailbox
+	var traces []*Trace
+	var mu sync.Mutex
+	type job struct {
+		sc    *mbScenario
+		sched []mbStep
+		seed  int64
+		class string
+		name  string
+	}
+	var jobs []job
+	for gi, g := range gens {
+		b, r, err := mbGenerate(c, dir, g, perCfg, c.Seed*131+int64(gi))
+		if err != nil || b.scen == nil || (r != nil && r.Violation != "") {
+			c.Broken("behaviour generation %s failed: %v %s\n%s", g, err, vio(r), tailOf(r))
+			return nil, nil, false
+		}
+		c.Add("tlc_behaviours_generated", int64(len(b.behav)))
+		for bi, bh := range b.behav {
+			sc := *b.scen
+			sc.RingSize = []int64{1, 2, 256}[bi%3]
+			jobs = append(jobs, job{&sc, bh, c.Seed + int64(bi), "tlc-" + strings.TrimSuffix(g, ".cfg"), fmt.Sprintf("%s#%d", g, bi)})
+		}
+	}
+	// 3. larger scenarios than TLC enumerates, random fine-grained schedules
+	rng := rand.New(rand.NewSource(c.Seed))
+	for i := 0; i < nRandom; i++ {
+		jobs = append(jobs, job{mbRandomScenario(rng), nil, c.Seed*7919 + int64(i), "random", fmt.Sprintf("random#%d", i)})
+	}
+	sem := make(chan struct{}, 12)
+	var wg sync.WaitGroup
+	distinct := map[string]bool{}
+	for _, j := range jobs {
+		wg.Add(1)
+		sem <- struct{}{}
+		go func(j job) {
+			defer wg.Done()
+			defer func() { <-sem }()
+			run := runMailboxScenario(j.sc, j.sched, j.seed)
+			mu.Lock()
+			defer mu.Unlock()
+			if run.Stuck != "" {
+				c.Broken("scenario %s: controller stuck: %s", j.name, run.Stuck)
+				return
+			}
+			c.Add("evaluations", 1)
+			c.Add("replayed_steps", int64(run.Steps))
+			c.Add("conformance_steps", int64(run.Conform))
+			c.Add("conformance_mismatch_steps", int64(run.Mismatch))
+			c.Add("drift_behaviours", int64(run.Drift))
+			c.Add("messages_handled", int64(run.Handled))
+			if os.Getenv("VERIF_DEBUG") != "" && run.Drift > 0 && c.Get("debug_printed") < 2 {
+				c.Add("debug_printed", 1)
+				b, _ := json.Marshal(map[string]any{"name": j.name, "sc": j.sc, "events": run.Events})
+				fmt.Println("DEBUG", string(b))
+			}
+			sig := traceSignature(run.Events)
+			if !distinct[sig] && traceHasOverlap(run.Events) {
+				distinct[sig] = true
+			}
+			traces = append(traces, &Trace{Events: run.Events, Class: j.class, Name: j.name,
+				Scenario: map[string]any{"scenario": j.sc, "schedule": j.sched, "seed": j.seed}})
+		}(j)
+	}
+	wg.Wait()
+	if c.IsBroken() {
+		return nil, nil, false
+	}
+	return traces, distinct, true
 }
